@@ -15,6 +15,8 @@ HeaderSeqs == { <<>>, <<Hdr(<<72>>, <<118>>)>>, <<Hdr(<<72, 111, 115, 116>>, <<9
                 <<Hdr(<<67, 111, 111, 107, 105, 101>>, <<97, 61, 98, 59, 32, 99>>), Hdr(<<85, 45, 65>>, <<120, 32, 121>>)>>,
                 \* headers that mean something to an HTTP stack are opaque to the parser: a Content-Length smaller than the body, chunked encoding
                 <<Hdr(ContentLength, <<49>>)>>,
+                \* header lines end with CR LF and with nothing else: a lone CR or LF (or a vertical tab, a form feed) is part of the value
+                <<Hdr(<<88>>, <<97, 13, 98>>), Hdr(<<89>>, <<97, 10, 98, 11, 12>>)>>,
                 \* names that differ in upper / lower case only are different names
                 <<Hdr(<<88, 45, 83>>, <<49>>), Hdr(<<120, 45, 115>>, <<50>>)>>,
                 <<Hdr(ContentLength, <<48>>), Hdr(<<84, 114, 97, 110, 115, 102, 101, 114, 45, 69, 110, 99, 111, 100, 105, 110, 103>>, <<99, 104, 117, 110, 107, 101, 100>>)>> }
